@@ -258,7 +258,7 @@ PopStep(re, pos, sp, exp, ord, sq, out) ==
              sq2 == IF ord /\ c.sseq = sq THEN sq + 1 ELSE sq
              o2 == Append(out, [msg |-> c.msg, ok |-> (frs = TsnSeq(c.msg))])
          IN IF "PopNoReset" \in Dev
-              THEN Pop(re2, sp, sp, exp + 1, ord, sq2, o2)   \* old code: scan state kept (harmless since 9e4865d)
+              THEN Pop(re2, sp, sp, exp + 1, ord, sq2, o2)   \* old code: scan state kept (harmless since be1f8ac)
               ELSE Pop(re2, sp, 0, exp + 1, ord, sq2, o2)
     ELSE Pop(re, pos + 1, sp, exp + 1, ord, sq, out)
 
